@@ -126,7 +126,9 @@ def main():
             "Why the recorded ones are not repaired: **C11** needs a string-aware (tokenising) repair instead of ten regexes over the whole text; **C12** needs a single-pass",
             "renderer instead of four regex passes over partially rendered text (the strict-mode loop-scope error has the same cause: required variables are detected by",
             "a regex over the raw template); **C15** K1/K2 need the dependency graph to remember pending requests (who waits for which resource) so that edges can be",
-            "retargeted when ownership changes - a redesign of the bookkeeping, not a patch. Each is identified by its root-cause signature, so a different violation",
+            "retargeted when ownership changes - a redesign of the bookkeeping, not a patch; **C17** (a failed canary is both the baseline violation and the 'independent' second signal)",
+            "needs a design decision - take the canary out of the baseline check, or require another signal when it is the only violation - and either choice weakens a response",
+            "the maintainers may want. Each is identified by its root-cause signature, so a different violation",
             "of the same property (another channel, an unexplained deadlock verdict, a fabricated structure that the documented repair table does not explain) is still a VIOLATION.", ""]
 
     out += ["### 10.3 Sensitivity: deliberate breakage (`mutants/`)", "",
